@@ -694,6 +694,24 @@ def fam_c19(R, n_random):
     add(enum([], ['#[regex("a{1001}{1001}{1001}")] A,']), 'reject', None, 'huge repetition (resource exhaustion)')
     for p in ['(?&nope)', 'a(?&b)']:
         add(enum([], ['#[regex(%s)] A,' % rust_str(p)]), 'reject', 'undef_subpattern')
+    # every rejection class in every attribute position (skip in both spellings, subpattern, byte-string literal)
+    add(enum(['#[logos(skip("(?&nope)+"))]'], ['#[token("b")] B,']), 'reject', 'undef_subpattern', 'undefined subpattern in a skip')
+    add(enum(['#[logos(skip "x(?&nope)")]'], ['#[token("b")] B,']), 'reject', 'undef_subpattern', 'undefined subpattern in a bare skip')
+    add(enum(['#[logos(subpattern a = "(?&b)x")]', '#[logos(subpattern b = "y")]'], ['#[regex("(?&a)")] A,']), 'reject', 'undef_subpattern', 'subpattern referring to a later one')
+    add(enum(['#[logos(subpattern a = "(?&a)x")]'], ['#[regex("(?&a)")] A,']), 'reject', 'undef_subpattern', 'subpattern referring to itself')
+    add(enum(['#[logos(skip("(?-u:\\b)x"))]'], ['#[token("b")] B,']), 'reject', None, 'look-behind at token start in a skip')
+    add(enum(['#[logos(skip "^x")]'], ['#[token("b")] B,']), 'reject', None, 'start anchor in a bare skip')
+    add(enum(['#[logos(subpattern s = "(?-u:\\b)")]'], ['#[regex("(?&s)x")] A,']), 'reject', None, 'look-behind at token start through a subpattern')
+    add(enum(['#[logos(utf8 = false)]'], ['#[regex(b"a*")] A,']), 'reject', 'empty', 'nullable byte-string regex')
+    add(enum(['#[logos(utf8 = false)]'], ['#[token(b"")] A,']), 'reject', 'empty', 'empty byte-string token')
+    add(enum(['#[logos(utf8 = false)]', '#[logos(skip b"x?")]'], ['#[token("b")] B,']), 'reject', 'empty', 'nullable byte-string skip')
+    add(enum(['#[logos(subpattern s = "a*")]'], ['#[regex("(?&s)")] A,']), 'reject', 'empty', 'nullable through a subpattern')
+    add(enum(['#[logos(skip("("))]'], ['#[token("b")] B,']), 'reject', None, 'regex syntax error in a skip')
+    add(enum(['#[logos(skip "[z-a]")]'], ['#[token("b")] B,']), 'reject', None, 'regex syntax error in a bare skip')
+    add(enum(['#[logos(subpattern s = "x{2,1}")]'], ['#[token("b")] B,']), 'reject', None, 'regex syntax error in an unused subpattern')
+    add(enum(['#[logos(utf8 = false)]'], ['#[regex(b"(?s-u:.)*q")] A,']), 'reject', 'greedy', 'greedy byte dot in a byte-string regex')
+    add(enum(['#[logos(subpattern any = ".*")]'], ['#[regex("a(?&any)b")] A,']), 'reject', 'greedy', 'greedy dot through a subpattern')
+    add(enum(['#[logos(subpattern any = ".*")]'], ['#[regex("a(?&any)b", allow_greedy = true)] A,']), 'noreject-greedy')
     # greedy dots at every depth
     for p in ['.*a', 'a.*', 'a.+', '(a.*)b', 'a(.*b)?', '((.+))', 'x(?:y(?:z.*))', '(a|b.*)c', '(?s:.)*', 'a[^\\n]*', 'x(a(b(c.+)))?', '(.*)+a', 'a(?:.*b){2}', '(?-u:.)*a', '(?s-u:.)+', '(.)*x', '((.))+x', '(?:(.)*y)+', '(?R).*', '(?R:.+)x', 'a[^\\r\\n]*', '(?R-u:.)*z', '[^\\n]+q', '(?s).*']:
         add(enum([], ['#[regex(%s)] A,' % rust_str(p)]), 'reject', 'greedy')
